@@ -337,7 +337,8 @@ def generate(seed, index, tier):
     style = k.choice(["random", "conserved", "conserved", "clade"])
     if style == "clade":
         taxa = k.choice([1100, 1200]) if k.bernoulli(0.5) or tier == "thorough" else taxa
-    recipe = {"taxa": taxa, "sites": k.randint(6, 24) if taxa < 1000 else k.randint(4, 8), "shape": k.choice(["caterpillar", "balanced", "random"]) if style != "clade" else k.choice(["caterpillar", "balanced"]), "style": style,
+    many_sites = style == "random" and 250 <= taxa <= 560 and k.bernoulli(0.3)
+    recipe = {"taxa": taxa, "sites": (k.randint(560, 700) if many_sites else k.randint(6, 24)) if taxa < 1000 else k.randint(4, 8), "shape": k.choice(["caterpillar", "balanced", "random"]) if style != "clade" else k.choice(["caterpillar", "balanced"]), "style": style,
               "model": k.choice(["JC69", "HKY"]), "tip_states": k.bernoulli(0.4), "data_seed": k.next64() & 0xFFFFFFFF, "kappa": round(k.uniform(0.5, 6.0), 3),
               "categories": k.choice([1, 1, 2, 4]), "shape_value": round(k.uniform(0.3, 2.0), 3), "invariant": k.choice([None, None, 0.2, 0.5])}
     m = Machine(recipe, EventLog())
